@@ -1,5 +1,6 @@
 (* C18 correspondence: how one observed run of the implementation (boundary log of the Go harness) is
-   compared with the model.  Used by the generated run/C18/cases_*.v files; not part of any theorem. *)
+   compared with the model.  Used by the generated run/C18/cases files.  The mux replay ([replay]) is proved sound for the mux
+   LTS in proof/C18_Replay.v (props/C18.v, the C18_accepted_history theorems). *)
 From Hy Require Import lib.Harness model.C18_Inbounds.
 From Coq Require Import ZArith.
 Local Open Scope N_scope.
